@@ -26,7 +26,7 @@ def check(ctx, tier):
             if b is None:
                 raise Inconclusive('function not found in dump: %s::%s' % (runtime, fn))
             ctx.encoded(prog, b)
-        I1, _a1, pm = lt.explore_process_message(prog, runtime, 1)
+        I1, _a1, pm = lt.explore_process_message(prog, runtime, 1, loop_status=(2, 4))
         ctx.absorb(I1)
         ctx.paths += len(pm)
         n = 0
